@@ -456,6 +456,9 @@ class CFGBuilder(AstVisitor[BB | None]):
             raise GuppyError(UnsupportedError(span, "`as` expression", singular=True))
 
         e = node.context_expr
+        # Modifier arguments are positional; never drop keyword arguments silently
+        if isinstance(e, ast.Call) and e.keywords:
+            raise GuppyError(UnsupportedError(e.keywords[0], "Keyword arguments"))
         modifier: Modifier
         match e:
             case ast.Name(id="dagger"):
